@@ -136,6 +136,19 @@ def fam_mixed_emitters():
     ]
 
 
+def fam_dispatch_lines():
+    """C04 / C05: removal by ANOTHER thread while an event is being dispatched, with every source line of
+    dispatch_events a yield point (the window between the membership re-check and the call of the handler)."""
+    base = [
+        {"threads": {"app1": [["schedule", 1, 1], ["add", 2, 1], ["start"], ["await"], ["stop"], ["join"]], "app2": [["remove", 2, 1]]},
+         "emit": {"1": [1, 2]}},
+        {"threads": {"app1": [["schedule", 1, 1], ["add", 2, 1], ["start"], ["await"], ["stop"], ["join"]], "app2": [["remove", 1, 1]]},
+         "emit": {"1": [1, 2]}},
+        {"threads": {"app1": [["schedule", 1, 1], ["start"], ["await"], ["stop"], ["join"]], "app2": [["unschedule", 1]]}, "emit": {"1": [1, 2]}},
+    ]
+    return [dict(p, line_yields=["dispatch_events"]) for p in base]
+
+
 def reversed_orders(progs):
     """The same programs with the emitter set and the handler sets iterating in the opposite order (the library iterates
     sets of emitters in _clear_emitters / start and sets of handlers in dispatch_events; any order must do)."""
@@ -256,6 +269,7 @@ WATCH_KEYS = {
     "4": {"path": 1, "filter": ["FileModifiedEvent", "FileCreatedEvent"]},   # filter differs: another watch
     "5": {"path": 1, "filter": ["FileCreatedEvent", "FileModifiedEvent"]},   # the same filter in another order: the same as 4
     "6": {"path": 2},
+    "7": {"path": 1, "filter": []},                                          # an EMPTY filter is a filter, not "no filter"
 }
 
 
@@ -264,9 +278,9 @@ def fam_watch_keys(maxlen):
     harness logs every call under the watch it denotes, so the reference map has four keys; the probe after every call
     shows whether the observer agrees (one emitter per watch, routes equal to the map, unscheduling one spelling
     unschedules the watch and no other)."""
-    ops_all = ([["schedule", 1, w] for w in (1, 2, 3, 4, 5, 6)] + [["schedule", 2, w] for w in (2, 5)] +
-               [["unschedule", w] for w in (1, 2, 3, 4, 5)] + [["remove", 1, w] for w in (2, 5)] + [["start"]])
-    canon = {1: 1, 2: 1, 3: 3, 4: 4, 5: 4, 6: 6}
+    ops_all = ([["schedule", 1, w] for w in (1, 2, 3, 4, 5, 6, 7)] + [["schedule", 2, w] for w in (2, 5)] +
+               [["unschedule", w] for w in (1, 2, 3, 4, 5, 7)] + [["remove", 1, w] for w in (2, 5)] + [["start"]])
+    canon = {1: 1, 2: 1, 3: 3, 4: 4, 5: 4, 6: 6, 7: 7}
     out = []
     for L in range(2, maxlen + 1):
         for seq in itertools.product(ops_all, repeat=L):
@@ -299,7 +313,7 @@ def fam_watch_keys(maxlen):
             for op in seq:
                 ops += [op, ["probe"]]
             tail = [["await"], ["probe"], ["stop"], ["join"]] if started else []
-            out.append({"threads": {"app1": ops + tail}, "emit": {"1": [1], "3": [1], "4": [1], "6": [1]}, "wspec": WATCH_KEYS})
+            out.append({"threads": {"app1": ops + tail}, "emit": {"1": [1], "3": [1], "4": [1], "6": [1], "7": [1]}, "wspec": WATCH_KEYS})
     return out
 
 
